@@ -129,6 +129,7 @@ def run_property(prop, tier):
 
     # ---------------------------------------------------------------- aggregate
     harness_errors, inconclusive, violations, known_hits = [], [], [], {}
+    polluted = {}
     evaluations = 0
     distinct = set()
     samples = []
@@ -165,6 +166,8 @@ def run_property(prop, tier):
                                 distinct.add(name + key)
                             for k in rec.get("known", []):
                                 known_hits[k] = known_hits.get(k, 0) + 1
+                            if rec.get("polluted"):
+                                polluted[name] = polluted.get(name, 0) + 1
                             if len(part_samples) < 3 or rnd.random() < 0.002:
                                 part_samples.append({"part": name, "trace": rec["trace"], "checks": rec["checked"],
                                                      "info": rec.get("info", {})})
@@ -222,28 +225,43 @@ def run_property(prop, tier):
                     os.remove(path)
         part_reports.append(rep)
 
-    # counterexamples written by CH harnesses
+    # counterexamples written by CH harnesses: per failure fingerprint, replay candidates until one reproduces natively
+    # (state leaking from an earlier path of the same worker process can make a path fail for reasons its own trace does not
+    # contain; such a candidate does not replay and the next one is tried)
     cexdir = os.path.join(work, "cex")
-    seen_fp = set()
+    by_fp = {}
     for fn in sorted(os.listdir(cexdir)):
+        if fn.endswith(".polluted"):
+            continue
         with open(os.path.join(cexdir, fn)) as f:
             cex = json.load(f)
-        fp = json.dumps(sorted({x["fingerprint"] for x in cex.get("failures", [])})) + str(bool(cex.get("harness_exception")))
-        if fp in seen_fp and len(seen_fp) > 0:
-            continue
-        seen_fp.add(fp)
         if cex.get("harness_exception"):
             harness_errors.append(f"scenario {cex['scenario']} raised: {cex['harness_exception'][-1500:]} trace={cex['trace']}")
             continue
-        cex["kind"] = "ch"
-        path = _save_replay(prop, cex)
-        code, msg = _replay(path)
-        if code == 1:
-            violations.append((path, msg))
-        else:
-            harness_errors.append(f"counterexample of {cex['scenario']} does not replay natively (code {code}): {msg}; trace={cex['trace']}")
+        fp = json.dumps(sorted({x["fingerprint"] for x in cex.get("failures", [])}))
+        by_fp.setdefault(fp, []).append(cex)
+    for fp, cands in by_fp.items():
+        cands.sort(key=lambda c: len(c["trace"]))
+        last = None
+        for cex in cands[:8]:
+            cex["kind"] = "ch"
+            path = _save_replay(prop, cex)
+            code, msg = _replay(path)
+            if code == 1:
+                violations.append((path, msg))
+                last = None
+                break
             os.remove(path)
+            last = (cex, code, msg)
+        if last is not None:
+            cex, code, msg = last
+            harness_errors.append(f"{len(cands)} counterexample(s) of {cex['scenario']} with failures {fp} do not replay natively "
+                                  f"(tried {min(len(cands), 8)}; last: code {code}: {msg}); trace={cex['trace']}")
 
+    for name, cnt in polluted.items():
+        if not violations:
+            inconclusive.append(f"{name}: {cnt} path(s) failed only in the presence of state left behind by earlier paths of the same worker "
+                                f"process (their own trace does not reproduce in a fresh interpreter): process-level state leaks, not attributable")
     wall = round(time.time() - t0, 2)
     kn = {k["id"]: k for k in known.load() if k["property"] == prop}
     for kid, n in sorted(known_hits.items()):
